@@ -10,6 +10,7 @@ of them are hypotheses, named as in DESIGN.md:
                 (per instance inside `SegCode`, or as global laws S1/S2 in `encode_decode_stream`)
 -/
 import NumbersModel.Lemmas.Iwa
+import NumbersModel.Lemmas.TrIwa
 namespace NumbersModel.Props.C05
 open NumbersModel NumbersModel.Iwa
 
@@ -240,5 +241,88 @@ example : decompress toy.uncompress [1, 0, 0, 0] = .error .ValueError ∧
     isIwaFile [0, 1] = .error .StructError ∧ isIwaFile [3] = .ok false ∧ isIwaFile [] = .ok true ∧
     segFromBuffer toy [2, 8, 0] = .error notImplemented ∧
     segFromBuffer toy [0] = .error .ValueError ∧ segFromBuffer toy [] = .error .IndexError := by decide
+
+/-! ### the clauses over the definitions REGENERATED FROM THE SOURCE (`Gen/TrIwa.lean`, harness/py2lean.py group `Iwa`)
+
+`Gen.T.is_iwa_file`, `Gen.T.decompress_all` (the generator `IWACompressedChunk._decompress_all`: the list of what it yields),
+`Gen.T.chunk_to_buffer` (`IWACompressedChunk.to_buffer` from the joined archive bytes on) and
+`Gen.T.get_archive_info_and_remainder` are translated statement by statement from `iwafile.py` on every check run (Python
+ints and slices; `unpack('<I', …)`, `struct.pack('<I', …)` as `PyT.unpackU32LE` / `packU32LE`; snappy and
+`ArchiveInfo.FromString` are parameters, `_DecodeVarint32` is the model's `varintDec32`). -/
+namespace Src
+open NumbersModel.TrIwa
+
+/-- the translated functions ARE the model's, for all byte strings and every behaviour of snappy / protobuf -/
+theorem src_framing_eq_model :
+    (∀ data, Gen.T.is_iwa_file data = isIwaFile data) ∧
+    (∀ unc data, joinPieces (Gen.T.decompress_all unc data) = decompress unc data) ∧
+    (∀ compress s, Gen.T.chunk_to_buffer compress s = frameStream compress s) :=
+  ⟨is_iwa_file_eq_model, decompress_all_eq_model, chunk_to_buffer_eq_model⟩
+
+/-- `get_archive_info_and_remainder` is the head of the model's segment reader (varint length, header bytes, remainder) -/
+theorem src_archive_info_eq_model {H M : Type} (e : Ext H M) (buf : Bytes) :
+    Gen.T.get_archive_info_and_remainder e.parseInfo buf = archiveInfoAndRemainder e.parseInfo buf ∧
+    segFromBuffer e buf = (do
+      let (h, payload) ← Gen.T.get_archive_info_and_remainder e.parseInfo buf
+      if e.reprEmpty h then .error .ValueError
+      else do
+        let (objs, n) ← msgLoop e h payload (e.infos h) 0 []
+        .ok (⟨h, objs⟩, payload.drop n)) :=
+  ⟨get_archive_info_and_remainder_eq_model e.parseInfo buf, segFromBuffer_head e buf⟩
+
+/-- `b"".join(_decompress_all(to_buffer-framing s)) = s` over the source as it is now, for every byte string of any length -/
+theorem src_unframe_frame (compress : Bytes → Bytes) (uncompress : Bytes → PyM Bytes)
+    (H1 : ∀ x, uncompress (compress x) = .ok x)
+    (H2 : ∀ x : Bytes, x.length ≤ 65536 → (compress x).length < 16777216) (s : Bytes) :
+    ∃ buf, Gen.T.chunk_to_buffer compress s = .ok buf ∧ joinPieces (Gen.T.decompress_all uncompress buf) = .ok s := by
+  obtain ⟨buf, h1, h2⟩ := unframe_frame compress uncompress H1 H2 s
+  exact ⟨buf, by rw [chunk_to_buffer_eq_model, h1], by rw [decompress_all_eq_model, h2]⟩
+
+/-- chunking independence over the translated un-framer: any cut of `s` into compressed chunks decodes to `s` -/
+theorem src_chunking_independent (compress : Bytes → Bytes) (uncompress : Bytes → PyM Bytes)
+    (H1 : ∀ x, uncompress (compress x) = .ok x) (s : Bytes) (pieces : List Bytes)
+    (hcut : pieces.flatten = s)
+    (hlen : ∀ p ∈ pieces, (compress p).length < 16777216) (hlen1 : (compress s).length < 16777216) :
+    joinPieces (Gen.T.decompress_all uncompress (framesOf (pieces.map compress))) = .ok s ∧
+    joinPieces (Gen.T.decompress_all uncompress (framesOf (pieces.map compress))) =
+      joinPieces (Gen.T.decompress_all uncompress (framesOf [compress s])) := by
+  rw [decompress_all_eq_model, decompress_all_eq_model]
+  exact chunking_independent compress uncompress H1 s pieces hcut hlen hlen1
+
+/-- … and stored (uncompressed) chunks, through the translated `except Exception: yield chunk` -/
+theorem src_chunking_independent_stored (uncompress : Bytes → PyM Bytes) (s : Bytes) (pieces : List Bytes)
+    (hcut : pieces.flatten = s)
+    (hst : ∀ p ∈ pieces, p.length < 16777216 ∧ ∃ x, uncompress p = .error x) :
+    joinPieces (Gen.T.decompress_all uncompress (framesOf pieces)) = .ok s := by
+  rw [decompress_all_eq_model]
+  exact chunking_independent_stored uncompress s pieces hcut hst
+
+/-- container rules over the translated `to_buffer` -/
+theorem src_container_rules (compress : Bytes → Bytes)
+    (H2 : ∀ x : Bytes, x.length ≤ 65536 → (compress x).length < 16777216) (s : Bytes) :
+    ∃ sl : List Bytes, Gen.T.chunk_to_buffer compress s = .ok ((sl.map fun x => frameOf (compress x)).flatten) ∧
+      sl.flatten = s ∧
+      ∀ x ∈ sl, x ≠ [] ∧ x.length ≤ 65536 ∧
+        (frameOf (compress x)).head? = some 0 ∧
+        unle24 ((frameOf (compress x)).take 4) = .ok (compress x).length ∧
+        (frameOf (compress x)).drop 4 = compress x ∧ (compress x).length < 16777216 := by
+  rw [chunk_to_buffer_eq_model]
+  exact container_rules compress H2 s
+
+/-- the translated `is_iwa_file` recognises every sequence of well-formed chunks -/
+theorem src_is_iwa_file_of_encoded (payloads : List Bytes) (h : ∀ p ∈ payloads, p.length < 16777216) :
+    Gen.T.is_iwa_file (framesOf payloads) = .ok true := by
+  rw [is_iwa_file_eq_model]
+  exact is_iwa_file_of_encoded payloads h
+
+/-- non-vacuity: the translated definitions run (toy snappy: one leading byte) -/
+example : Gen.T.chunk_to_buffer toy.compress [5, 6, 7] = .ok [0, 4, 0, 0, 1, 5, 6, 7] := by decide
+example : Gen.T.decompress_all toy.uncompress [0, 4, 0, 0, 1, 5, 6, 7, 0, 2, 0, 0, 9, 9] = .ok [[5, 6, 7], [9, 9]] := by decide
+example : Gen.T.decompress_all toy.uncompress [1, 0, 0, 0] = .error .ValueError ∧
+    Gen.T.decompress_all toy.uncompress [0, 1] = .error .StructError ∧
+    Gen.T.is_iwa_file [0, 1] = .error .StructError ∧ Gen.T.is_iwa_file [3] = .ok false ∧ Gen.T.is_iwa_file [] = .ok true ∧
+    Gen.T.is_iwa_file [0, 4, 0, 0, 1, 5, 6, 7] = .ok true := by decide
+
+end Src
 
 end NumbersModel.Props.C05
